@@ -92,14 +92,13 @@ def classify(ev):
     return fams
 
 
-def bad_lines(res):
-    out = res.get("out", "")
-    m = re.search(r'"BAD-LINES",\s*<<(.*?)>>', out, re.S)
-    if m:
-        return sorted(set(int(n) for n in re.findall(r"\d+", m.group(1))))
-    # marker cut off (only the tail of the output is kept): numbers standing alone on a line
-    head = out.split("TRACE-ACCEPTED")[0]
-    return sorted(set(int(n) for n in re.findall(r"(?m)^\s*(\d+)\s*,?\s*(?:>> >>)?\s*$", head)))
+def bad_lines(path):
+    """line numbers the survey run wrote (JSON array, TLA+ JsonSerialize)"""
+    try:
+        v = json.load(open(path))
+    except Exception:
+        return None
+    return sorted(set(int(n) for n in v))
 
 
 def run(ctx):
@@ -127,11 +126,16 @@ def run(ctx):
     if not res["accepted"]:
         # list every rejected expression (survey mode), then decide each one
         saved = {k: ctx.cov.get(k) for k in ("events_validated", "traces_validated_against_impl", "trace_validation_states")}
-        sv = ctx.tlc_trace("TraceFold.tla", "TraceFold.cfg", trace, timeout=3000, extra_env={"VERIF_SURVEY": "1"})
+        badout = os.path.join(ctx.work, "bad-lines.json")
+        sv = ctx.tlc_trace("TraceFold.tla", "TraceFold.cfg", trace, timeout=3000, extra_env={"VERIF_SURVEY": "1", "VERIF_BADOUT": badout})
         for k, v in saved.items():
             if v is not None:
                 ctx.cov[k] = v
-        bad = bad_lines(sv) or [res["line"]]
+        bad = bad_lines(badout)
+        if bad is None or not sv["accepted"]:
+            raise Infra("survey run did not produce the list of rejected lines: %s" % (sv.get("out", "")[-1500:],))
+        if res["line"] not in bad:
+            raise Infra("survey run disagrees with the strict run: line %d rejected but not listed in %s" % (res["line"], bad[:20]))
         unknown, known = [], {}
         # testing aid (mutation runs): treat these families as recorded findings
         assume = set(filter(None, os.environ.get("VERIF_ASSUME_KNOWN", "").split(",")))
